@@ -415,7 +415,7 @@ enum NameEnc { Inline, Pointer, Partial }
 
 /// Encode a value field by field; names either inline, as a pointer to a copy
 /// that is placed in `prefix`, or first label inline + pointer to the rest.
-fn encode(fs: &[F], v: &[Val], prefix: &mut Vec<u8>, r: &mut Rng, compress: bool) -> Vec<u8> {
+fn encode(fs: &[F], v: &[Val], prefix: &mut Vec<u8>, r: &mut Rng, compress: bool, ptr_used: &mut bool) -> Vec<u8> {
     let mut out = vec![];
     for (f, x) in fs.iter().zip(v) {
         match (f, x) {
@@ -429,9 +429,11 @@ fn encode(fs: &[F], v: &[Val], prefix: &mut Vec<u8>, r: &mut Rng, compress: bool
                 let at = prefix.len();
                 if enc == NameEnc::Inline || at + w.len() >= 0x3fff { out.extend_from_slice(w); }
                 else if enc == NameEnc::Pointer || w.len() == 1 {
+                    *ptr_used = true;
                     prefix.extend_from_slice(w);
                     out.push(0xc0 | (at >> 8) as u8); out.push(at as u8);
                 } else {
+                    *ptr_used = true;
                     let first = 1 + w[0] as usize;
                     prefix.extend_from_slice(&w[first..]);
                     out.extend_from_slice(&w[..first]);
@@ -719,7 +721,8 @@ fn parse_cases_for(out: &mut Out, r: &mut Rng, t: u16, v: &[Val]) {
     let compress = r.chance(2, 3);
     let k0 = r.below(6) as usize;
     let mut prefix = r.bytes(k0);
-    let rd = encode(&fs, v, &mut prefix, r, compress);
+    let mut ptr_used = false;
+    let rd = encode(&fs, v, &mut prefix, r, compress, &mut ptr_used);
     if rd.len() > 5000 { return; }
     let mut msg = prefix.clone();
     let pos = msg.len();
@@ -729,6 +732,12 @@ fn parse_cases_for(out: &mut Out, r: &mut Rng, t: u16, v: &[Val]) {
     let tail = r.bytes(k1);
     msg.extend_from_slice(&tail);
     parse_case(out, t, &msg, pos, lim, if compress { "parse_compressed" } else { "parse_plain" });
+    if t == 45 && ptr_used {
+        // RFC 4025 2.5: the gateway name MUST NOT be compressed; Ipseckey::parse means to refuse it
+        let accepted = matches!(parse_at(t, &msg, pos, lim), Ok(Ok(_)));
+        chk(out, !accepted, "ipseckey_compressed_gateway", &format!("parse {} {} {} {}", t, hex(&msg), pos, lim),
+            "IPSECKEY RDATA whose gateway name is (or ends in) a compression pointer was accepted");
+    }
     match r.below(8) {
         0 if lim > pos => { let k = 1 + r.below((lim - pos).min(6) as u64) as usize; parse_case(out, t, &msg, pos, lim - k, "parse_truncated"); }
         1 if lim < msg.len() => parse_case(out, t, &msg, pos, msg.len(), "parse_trailing"),
@@ -1026,6 +1035,28 @@ mod edns {
         out.case(&case, &obs, nt, kind);
     }
 
+    /// T2 + oracle: the typed view of a server cookie (StandardServerCookie)
+    pub fn stdcookie_case(out: &mut Out, server: &[u8], kind: &str) {
+        use domain::base::opt::cookie::StandardServerCookie;
+        let case = format!("stdcookie {}", hex(server));
+        out.begin(&case);
+        if server.len() < 8 || server.len() > 32 { return; }       // ServerCookie::from_octets asserts 8..=32
+        let sc = ServerCookie::from_octets(server);
+        let std = sc.try_to_standard();
+        let obs = match std {
+            Some(s) => format!("Some {} {} {} {}", s.version(), hex(&s.reserved()), s.timestamp().into_int(), hex(&s.hash())),
+            None => "None".to_string(),
+        };
+        out.case(&case, &obs, std.is_some(), kind);
+        chk(out, std.is_some() == (server.len() == 16), "opt_roundtrip_COOKIE", &case, "try_to_standard must succeed exactly on 16 octets");
+        if let Some(s) = std {
+            let back = StandardServerCookie::new(s.version(), s.reserved(), s.timestamp(), s.hash());
+            let sc2: ServerCookie = back.into();
+            let mut w: Vec<u8> = Vec::new(); sc2.compose(&mut w).unwrap();
+            chk(out, w == server, "opt_roundtrip_COOKIE", &case, &format!("StandardServerCookie rebuilt from its fields composes to {}", hex(&w)));
+        }
+    }
+
     /// one option: (code, data) -> accepted?
     pub fn option_case(out: &mut Out, code: u16, data: &[u8], must_parse: bool, kind: &str) -> bool {
         let case = format!("edns {} {}", code, hex(data));
@@ -1241,6 +1272,11 @@ mod edns {
                 if option_case(out, code, &d, false, &format!("edns_{}", cname(code))) && d.len() < 5000 { pool.push((code, d)); }
             }
         }
+        for i in 0..(n / 2).max(20) {
+            let k = match i % 4 { 0 => 16usize, 1 => 8 + r.below(25) as usize, 2 => *r.pick(&[8usize, 15, 17, 32]), _ => 16 };
+            let d = r.bytes(k);
+            stdcookie_case(out, &d, "stdcookie");
+        }
         // an option at the size limit
         option_case(out, 3, &vec![7u8; 65531], false, "edns_max");
         for _ in 0..(2 * n) {
@@ -1274,6 +1310,198 @@ mod edns {
         }
         for (a, b) in [(65531usize, None), (65531, Some(0usize)), (65532, None), (65535, None), (65527, Some(0)), (65526, Some(1)), (65527, Some(1)), (30000, Some(35527)), (30000, Some(35528))] {
             push_limit_case(out, a, b);
+        }
+    }
+}
+
+mod svc {
+    //! SVCB / HTTPS service parameters: values by key and the typed builder.
+    //!   svc_len_<VALUE>        compose_len() == octets written by compose_value()
+    //!   svc_roundtrip_<VALUE>  the re-composed value parses to the same value
+    //!   svc_build_order        the builder freezes to ascending, accepted parameters
+    use super::*;
+    use domain::base::iana::SvcParamKey;
+    use domain::rdata::svcb::value::AllValues;
+    use domain::rdata::svcb::{ComposeSvcParamValue, SvcParamValue, SvcParams, SvcParamsBuilder, UnknownSvcParam};
+
+    fn vname(key: u16) -> &'static str {
+        match key { 0 => "MANDATORY", 1 => "ALPN", 2 => "NODEFAULTALPN", 3 => "PORT", 4 => "IPV4HINT", 5 => "ECH", 6 => "IPV6HINT",
+                    7 => "DOHPATH", 8 => "OHTTP", 9 => "TLSGROUPS", _ => "UNKNOWN" }
+    }
+    fn frame(key: u16, data: &[u8]) -> Vec<u8> {
+        let mut raw = key.to_be_bytes().to_vec();
+        raw.extend_from_slice(&(data.len() as u16).to_be_bytes());
+        raw.extend_from_slice(data);
+        raw
+    }
+    fn explode_value<O: AsRef<[u8]> + octseq::Octets>(v: &AllValues<O>) -> Vec<Val> {
+        match v {
+            AllValues::Mandatory(x) => vec![Val::Bytes(x.as_slice().to_vec())],
+            AllValues::Alpn(x) => vec![Val::Strs(x.iter().map(|p| p.as_ref().to_vec()).collect())],
+            AllValues::NoDefaultAlpn(_) => vec![],
+            AllValues::Port(x) => vec![Val::Num(x.port() as u64)],
+            AllValues::Ech(x) => vec![Val::Bytes(x.as_slice().to_vec())],
+            AllValues::Ipv4Hint(x) => vec![Val::Bytes(x.as_slice().to_vec())],
+            AllValues::Ipv6Hint(x) => vec![Val::Bytes(x.as_slice().to_vec())],
+            AllValues::DohPath(x) => vec![Val::Bytes(x.as_slice().to_vec())],
+            AllValues::Ohttp(_) => vec![],
+            AllValues::TlsSupportedGroups(x) => vec![Val::Bytes(x.as_slice().to_vec())],
+            AllValues::Unknown(x) => vec![Val::Bytes(x.value().as_ref().to_vec())],
+        }
+    }
+    /// parse one framed parameter the way SvcParams does
+    fn parse_value(raw: &[u8]) -> Result<Result<(Vec<Val>, u16, Vec<u8>, u16), ParseError>, String> {
+        catch_mut(|| {
+            let p = SvcParams::from_octets(raw).map_err(ParseError::from)?;
+            let mut it = p.iter_all();
+            match it.next() {
+                Some(Ok(v)) => { let mut w: Vec<u8> = Vec::new(); v.compose_value(&mut w).unwrap(); Ok((explode_value(&v), v.compose_len(), w, v.key().to_int())) }
+                Some(Err(e)) => Err(e),
+                None => Err(ParseError::form_error("no parameter")),
+            }
+        })
+    }
+    fn gen_value(r: &mut Rng, key: u16) -> Vec<u8> {
+        let odd = r.chance(1, 6);
+        match key {
+            0 | 9 => { let n = 2 * match r.below(4) { 0 => 0usize, 1 => 1, _ => r.below(8) as usize } + odd as usize; r.bytes(n) }
+            1 => { let k = r.below(4) as usize; let mut o = vec![];
+                   for _ in 0..k { let l = match r.below(5) { 0 => 0usize, 1 => 255, _ => 1 + r.below(8) as usize }; o.push(l as u8); o.extend_from_slice(&r.bytes(l)); }
+                   if odd && !o.is_empty() { o.pop(); } o }
+            2 | 8 => { let n = if odd { 1 + r.below(3) as usize } else { 0 }; r.bytes(n) }
+            3 => { let n = if odd { *r.pick(&[0usize, 1, 3]) } else { 2 }; r.bytes(n) }
+            4 => { let n = 4 * r.below(4) as usize + if odd { 1 + r.below(3) as usize } else { 0 }; r.bytes(n) }
+            6 => { let n = 16 * r.below(3) as usize + if odd { 1 + r.below(15) as usize } else { 0 }; r.bytes(n) }
+            _ => { let n = match r.below(6) { 0 => 0usize, 1 => 300, _ => r.below(30) as usize }; r.bytes(n) }
+        }
+    }
+    pub fn value_case(out: &mut Out, key: u16, data: &[u8], kind: &str) {
+        let case = format!("svcvalue {} {}", key, hex(data));
+        out.begin(&case);
+        let raw = frame(key, data);
+        let res = parse_value(&raw);
+        let (obs, nt) = match &res {
+            Ok(Ok((v, _, _, _))) => (format!("Ok {}", toks(v)).trim_end().to_string(), true),
+            Ok(Err(e)) => (perr(e).to_string(), matches!(e, ParseError::Form(_))),
+            Err(_) => ("Panic".to_string(), true),
+        };
+        out.case(&case, &obs, nt, kind);
+        let vn = vname(key);
+        match res {
+            Err(e) => chk(out, false, &format!("svc_panic_{}", vn), &case, &e),
+            Ok(Err(_)) => {}
+            Ok(Ok((v, l, w, k))) => {
+                chk(out, k == key, &format!("svc_roundtrip_{}", vn), &case, "value parsed under a different key");
+                chk(out, l as usize == w.len(), &format!("svc_len_{}", vn), &case, &format!("compose_len {} but compose_value wrote {} octets", l, w.len()));
+                match parse_value(&frame(key, &w)) {
+                    Ok(Ok((v2, _, w2, _))) => chk(out, v2 == v && w2 == w, &format!("svc_roundtrip_{}", vn), &case, "re-composed value parses to a different value"),
+                    _ => chk(out, false, &format!("svc_roundtrip_{}", vn), &case, &format!("re-composed value {} does not parse", hex(&w))),
+                }
+            }
+        }
+    }
+    fn opts_tok(l: &[(u16, Vec<u8>)]) -> String {
+        if l.is_empty() { ".".into() } else { l.iter().map(|(c, d)| format!("{}={}", c, hex(d))).collect::<Vec<_>>().join(",") }
+    }
+    pub fn build_case(out: &mut Out, r: &mut Rng, pushes: &[(u16, Vec<u8>)], kind: &str) {
+        let case = format!("svcbuild {}", opts_tok(pushes));
+        out.begin(&case);
+        let res = catch_mut(|| SvcParams::<Vec<u8>>::from_values(|b| {
+            for (k, d) in pushes { b.push(&UnknownSvcParam::new(SvcParamKey::from_int(*k), d.clone()).unwrap())?; }
+            Ok(())
+        }));
+        let obs = match &res { Ok(Ok(p)) => hex(p.as_slice()), Ok(Err(_)) => "Reject".to_string(), Err(_) => "Panic".to_string() };
+        out.case(&case, &obs, matches!(res, Ok(Ok(_))), kind);
+        let dup = { let mut ks: Vec<u16> = pushes.iter().map(|x| x.0).collect(); ks.sort(); ks.windows(2).any(|w| w[0] == w[1]) };
+        match res {
+            Err(e) => chk(out, false, "svc_panic_BUILD", &case, &e),
+            Ok(Err(_)) => chk(out, dup, "svc_build_order", &case, "builder refused pushes without a duplicate key"),
+            Ok(Ok(p)) => {
+                chk(out, !dup, "svc_build_order", &case, "builder accepted a duplicate key");
+                let again = SvcParams::from_octets(p.as_slice().to_vec());
+                chk(out, again.is_ok(), "svc_build_order", &case, "frozen parameters are refused by SvcParams::from_octets");
+                let got: Vec<(u16, Vec<u8>)> = p.iter_raw().map(|u| (u.key().to_int(), u.value().as_ref().to_vec())).collect();
+                let mut want = pushes.to_vec(); want.sort();
+                chk(out, got == want, "svc_build_order", &case, &format!("frozen parameters iterate as {}", opts_tok(&got)));
+                // inside SVCB record data
+                let owner = gen_name(r);
+                if let Ok(rd) = Svcb::new(1, Name::<Vec<u8>>::from_octets(owner).unwrap(), p.clone()) {
+                    let built: Built = AllRecordData::Svcb(rd);
+                    let wire = compose_plain(&built).unwrap_or_default();
+                    match parse_at(64, &wire, 0, wire.len()) {
+                        Ok(Ok(q)) => chk(out, q == built && built.rdlen(false) == Some(wire.len() as u16), "roundtrip_SVCB", &case, "SVCB with built parameters"),
+                        _ => chk(out, false, "roundtrip_SVCB", &case, "SVCB with built parameters does not parse"),
+                    }
+                }
+            }
+        }
+    }
+    /// the typed push methods of the builder and typed constructors
+    fn typed(out: &mut Out, r: &mut Rng) {
+        use domain::rdata::svcb::value::{Ipv4Hint, Mandatory, TlsSupportedGroups};
+        let case = "svctyped";
+        out.oracle_case(case, true, "svc_typed");
+        let a4: Vec<Ipv4Addr> = (0..3).map(|_| { let b = r.bytes(4); Ipv4Addr::new(b[0], b[1], b[2], b[3]) }).collect();
+        let res = catch_mut(|| SvcParams::<Vec<u8>>::from_values(|b| {
+            b.port(443)?;
+            b.ipv4hint(&a4).map_err(|_| domain::rdata::svcb::PushError::ShortBuf)?;
+            b.alpn(&[b"h2", b"h3"]).map_err(|_| domain::rdata::svcb::PushError::ShortBuf)?;
+            b.mandatory([SvcParamKey::from_int(1), SvcParamKey::from_int(3)]).map_err(|_| domain::rdata::svcb::PushError::ShortBuf)?;
+            b.no_default_alpn()?;
+            Ok(())
+        }));
+        match res {
+            Ok(Ok(p)) => {
+                let keys: Vec<u16> = p.iter_raw().map(|u| u.key().to_int()).collect();
+                chk(out, keys == vec![0, 1, 2, 3, 4], "svc_build_order", case, &format!("typed pushes freeze to keys {:?}", keys));
+                chk(out, p.port().map(|x| x.port()) == Some(443) && p.no_default_alpn() && p.alpn().is_some() && p.mandatory().is_some() && p.ipv4hint().is_some(),
+                    "svc_roundtrip_TYPED", case, "typed getters do not find the pushed values");
+                let q = match SvcParams::from_octets(p.as_slice()) { Ok(q) => q, Err(_) => { chk(out, false, "svc_build_order", case, "typed pushes freeze to refused octets"); return; } };
+                for v in q.iter_all() { if let Ok(v) = v { let mut w: Vec<u8> = Vec::new(); v.compose_value(&mut w).unwrap();
+                    chk(out, v.compose_len() as usize == w.len(), &format!("svc_len_{}", vname(v.key().to_int())), case, "compose_len of a typed value"); } }
+            }
+            Ok(Err(_)) => chk(out, false, "svc_build_order", case, "typed pushes refused"),
+            Err(e) => chk(out, false, "svc_panic_BUILD", case, &e),
+        }
+        // typed constructors produce values that parse back
+        let m: Mandatory<Vec<u8>> = Mandatory::from_keys([4u16, 1, 0].iter().map(|k| SvcParamKey::from_int(*k))).unwrap();
+        value_case(out, 0, m.as_slice(), "svc_ctor");
+        let h: Ipv4Hint<Vec<u8>> = Ipv4Hint::from_addrs(a4.iter().cloned()).unwrap();
+        value_case(out, 4, h.as_slice(), "svc_ctor");
+        let g = TlsSupportedGroups::<Vec<u8>>::from_keys([29u16, 23].iter().cloned());
+        if let Ok(g) = g { value_case(out, 9, g.as_slice(), "svc_ctor"); }
+        // from_keys of an empty list builds a value the parser refuses (empty tls-supported-groups)
+        if let Ok(g) = TlsSupportedGroups::<Vec<u8>>::from_keys(std::iter::empty::<u16>()) {
+            let c = "svcvalue 9 - (TlsSupportedGroups::from_keys of no groups)";
+            out.oracle_case(c, true, "svc_ctor");
+            let ok = matches!(parse_value(&frame(9, g.as_slice())), Ok(Ok(_)));
+            chk(out, ok, "svc_ctor_reparse_TLSGROUPS", c, "constructor accepted an empty group list that TlsSupportedGroups::parse refuses");
+        }
+    }
+
+    pub fn run(out: &mut Out, r: &mut Rng, n: u64) {
+        for (k, d) in [(1u16, vec![2u8, 104, 50, 2, 104, 51]), (1, vec![2, 104]), (2, vec![]), (2, vec![0]), (3, vec![1, 187]), (3, vec![1]), (3, vec![1, 187, 0]),
+                       (4, vec![192, 0, 2]), (6, vec![1, 2, 3, 4]), (0, vec![0, 4, 0, 1, 0, 0]), (9, vec![]), (9, vec![0, 29]), (4711, vec![1, 2, 3])] {
+            value_case(out, k, &d, "corpus");
+        }
+        typed(out, r);
+        let mut pool: Vec<(u16, Vec<u8>)> = vec![];
+        for &key in &[0u16, 1, 2, 3, 4, 5, 6, 7, 8, 9, 10, 4711, 65535] {
+            for _ in 0..(n / 3).max(15) {
+                let d = gen_value(r, key);
+                value_case(out, key, &d, &format!("svcvalue_{}", vname(key)));
+                if d.len() < 400 { pool.push((key, d)); }
+            }
+        }
+        build_case(out, r, &[], "corpus");
+        build_case(out, r, &[(3, vec![1, 187]), (1, vec![2, 104, 50]), (0, vec![0, 1])], "corpus");
+        build_case(out, r, &[(3, vec![]), (1, vec![]), (3, vec![1])], "corpus");
+        for _ in 0..(2 * n) {
+            let k = r.below(7) as usize;
+            let mut items: Vec<(u16, Vec<u8>)> = (0..k).map(|_| r.pick(&pool).clone()).collect();
+            if !r.chance(1, 4) { let mut seen = std::collections::HashSet::new(); items.retain(|x| seen.insert(x.0)); }
+            if r.chance(1, 3) { for it in items.iter_mut() { if r.chance(1, 3) { it.0 = r.u16(); } } }
+            build_case(out, r, &items, "svcbuild");
         }
     }
 }
@@ -1324,5 +1552,6 @@ fn main() {
     }
     irregular::run(&mut out, &mut r, n);
     edns::run(&mut out, &mut r, n);
+    svc::run(&mut out, &mut r, n);
     out.finish(&[]);
 }
